@@ -113,4 +113,127 @@ theorem decimal_value (k n : Nat) (hn : n < 2 ^ 64) :
 /-- in particular "010" is ten and "008" is eight (a base-detecting parser would say 8 and fail) -/
 example : parseValue "010" = some 10 ∧ parseValue "008" = some 8 ∧ parseValue "0" = some 0 := by decide
 
+/-! ### hexadecimal and binary values -/
+
+/-- positional value of a digit list, most significant first -/
+def valB (base : Nat) (ds : List Nat) (acc : Nat) : Nat := ds.foldl (fun a d => a * base + d) acc
+
+theorem valB_ge (base : Nat) (ds : List Nat) (acc : Nat) (hb : 1 ≤ base) : acc ≤ valB base ds acc := by
+  induction ds generalizing acc with
+  | nil => simp [valB]
+  | cons d r ih =>
+    simp only [valB, List.foldl_cons] at ih ⊢
+    have := ih (acc * base + d)
+    have : acc ≤ acc * base := Nat.le_mul_of_pos_right acc hb
+    omega
+
+theorem fold_base (base : Nat) (hb : 1 ≤ base) (ch : Nat → Char) (hch : ∀ d, d < base → Gen18.digitVal (ch d) = some d)
+    (ds : List Nat) (h : ∀ d ∈ ds, d < base) (acc : Nat) (hv : valB base ds acc < 2 ^ 64) :
+    (ds.map ch).foldl (ustep base) (some acc) = some (valB base ds acc) := by
+  induction ds generalizing acc with
+  | nil => simp [valB]
+  | cons d r ih =>
+    have hd := h d (by simp)
+    have hr : ∀ x ∈ r, x < base := fun x hx => h x (by simp [hx])
+    have hv' : valB base r (acc * base + d) < 2 ^ 64 := by simpa [valB] using hv
+    have hstep : acc * base + d < 2 ^ 64 := Nat.lt_of_le_of_lt (valB_ge base r _ hb) hv'
+    simp only [List.map_cons, List.foldl_cons, ustep, hch d hd, hd, hstep, and_self, if_true]
+    rw [ih hr _ hv']
+    simp [valB]
+
+/-- a hexadecimal digit, in either case -/
+def hexChar (d : Nat × Bool) : Char :=
+  if d.1 < 10 then digitChar d.1 else if d.2 then Char.ofNat (55 + d.1) else Char.ofNat (87 + d.1)
+
+theorem digitVal_hexChar (d : Nat) (up : Bool) (h : d < 16) : Gen18.digitVal (hexChar (d, up)) = some d := by
+  have : d = 0 ∨ d = 1 ∨ d = 2 ∨ d = 3 ∨ d = 4 ∨ d = 5 ∨ d = 6 ∨ d = 7 ∨ d = 8 ∨ d = 9 ∨ d = 10 ∨ d = 11 ∨ d = 12 ∨
+      d = 13 ∨ d = 14 ∨ d = 15 := by omega
+  cases up <;> rcases this with rfl|rfl|rfl|rfl|rfl|rfl|rfl|rfl|rfl|rfl|rfl|rfl|rfl|rfl|rfl|rfl <;> decide
+
+theorem fold_hex (ds : List (Nat × Bool)) (h : ∀ d ∈ ds, d.1 < 16) (acc : Nat) (hv : valB 16 (ds.map (·.1)) acc < 2 ^ 64) :
+    (ds.map hexChar).foldl (ustep 16) (some acc) = some (valB 16 (ds.map (·.1)) acc) := by
+  induction ds generalizing acc with
+  | nil => simp [valB]
+  | cons d r ih =>
+    have hd := h d (by simp)
+    have hr : ∀ x ∈ r, x.1 < 16 := fun x hx => h x (by simp [hx])
+    have hv' : valB 16 (r.map (·.1)) (acc * 16 + d.1) < 2 ^ 64 := by simpa [valB] using hv
+    have hstep : acc * 16 + d.1 < 2 ^ 64 := Nat.lt_of_le_of_lt (valB_ge 16 _ _ (by omega)) hv'
+    have hdv : Gen18.digitVal (hexChar d) = some d.1 := digitVal_hexChar d.1 d.2 hd
+    simp only [List.map_cons, List.foldl_cons, ustep, hdv, hd, hstep, and_self, if_true]
+    rw [ih hr _ hv']
+    simp [valB]
+
+/-- **C18 (hexadecimal enum values).** `value="0x<hex digits>"`, digits in either case, at least one, value below 2^64: the
+    generator model reads the number the digits denote in base sixteen. -/
+theorem hex_value (ds : List (Nat × Bool)) (hne : ds ≠ []) (h : ∀ d ∈ ds, d.1 < 16) (hv : valB 16 (ds.map (·.1)) 0 < 2 ^ 64) :
+    parseValue (String.ofList ('0' :: 'x' :: ds.map hexChar)) = some (valB 16 (ds.map (·.1)) 0) := by
+  unfold parseValue
+  rw [String.toList_ofList]
+  show parseUint 16 (ds.map hexChar) = _
+  rw [parseUint_eq]
+  have : (ds.map hexChar).isEmpty = false := by
+    cases ds with
+    | nil => exact absurd rfl hne
+    | cons _ _ => rfl
+  rw [this]
+  simp only [Bool.false_eq_true, if_false]
+  exact fold_hex ds h 0 hv
+
+/-- **C18 (binary enum values).** `value="0b<binary digits>"`. -/
+theorem binary_value (ds : List Nat) (hne : ds ≠ []) (h : ∀ d ∈ ds, d < 2) (hv : valB 2 ds 0 < 2 ^ 64) :
+    parseValue (String.ofList ('0' :: 'b' :: ds.map digitChar)) = some (valB 2 ds 0) := by
+  unfold parseValue
+  rw [String.toList_ofList]
+  show parseUint 2 (ds.map digitChar) = _
+  rw [parseUint_eq]
+  have : (ds.map digitChar).isEmpty = false := by
+    cases ds with
+    | nil => exact absurd rfl hne
+    | cons _ _ => rfl
+  rw [this]
+  simp only [Bool.false_eq_true, if_false]
+  exact fold_base 2 (by omega) digitChar (fun d hd => digitVal_digitChar d (by omega)) ds h 0 hv
+
+example : parseValue "0x1F" = some 31 ∧ parseValue "0xfF" = some 255 ∧ parseValue "0b101" = some 5 ∧
+    parseValue "0x10000000000000000" = none := by decide
+
+/-! ### values that do not fit are refused -/
+
+theorem ustep_none (base : Nat) (cs : List Char) : cs.foldl (ustep base) none = none := by
+  induction cs with
+  | nil => rfl
+  | cons c r ih => simp only [List.foldl_cons, ustep, ih]
+
+theorem fold_digits_overflow (ds : List Nat) (h : ∀ d ∈ ds, d < 10) (acc : Nat) (hb : 2 ^ 64 ≤ valMsf ds acc) (hacc : acc < 2 ^ 64) :
+    (ds.map digitChar).foldl (ustep 10) (some acc) = none := by
+  induction ds generalizing acc with
+  | nil => simp [valMsf] at hb; omega
+  | cons d r ih =>
+    have hd := h d (by simp)
+    have hr : ∀ x ∈ r, x < 10 := fun x hx => h x (by simp [hx])
+    have hb' : 2 ^ 64 ≤ valMsf r (acc * 10 + d) := by simpa [valMsf] using hb
+    simp only [List.map_cons, List.foldl_cons, ustep, digitVal_digitChar d hd, hd, true_and]
+    by_cases hstep : acc * 10 + d < 2 ^ 64
+    · simp only [hstep, if_true]
+      exact ih hr _ hb' hstep
+    · simp only [hstep, if_false]
+      exact ustep_none 10 _
+
+/-- **C18 (a value the generated constant cannot hold is an error).** A decimal `value` of 2^64 or more makes the conversion fail —
+    it is never wrapped into a different constant. -/
+theorem decimal_value_too_big (n : Nat) (hn : 2 ^ 64 ≤ n) : parseValue (String.ofList (natToDec n)) = none := by
+  obtain ⟨hdig, hne⟩ := GenLink.natToDec_digits n
+  rw [parseValue_digits _ hdig, parseUint_eq]
+  have hemp : (natToDec n).isEmpty = false := by
+    cases hd : natToDec n with
+    | nil => exact absurd hd hne
+    | cons c r => rfl
+  rw [hemp]
+  simp only [Bool.false_eq_true, if_false]
+  obtain ⟨h1, h2, _⟩ := digitsRev_spec (n + 1) n (by omega)
+  unfold natToDec
+  have hv : valMsf (digitsRev (n + 1) n).reverse 0 = n := by rw [valMsf_reverse, h1]
+  exact fold_digits_overflow _ (by intro d hd; exact h2 d (by simpa using hd)) 0 (by rw [hv]; exact hn) (by decide)
+
 end Mav.GenValues
